@@ -10,6 +10,13 @@ from ..engine import Engine, Unsupported, S
 from ..values import SymBytes, SymInt, lift, toint
 
 
+def _plain(sb):
+    """fully literal content is handed out as real bytes (so that code outside the modelled fragment, e.g. real numpy, can use it)"""
+    if isinstance(sb, SymBytes) and all(g[0] == "c" for g in sb.segs):
+        return bytes(sb)
+    return sb
+
+
 class RawEntry:
     def __init__(self, data):
         self.data = lift(data)
@@ -66,7 +73,7 @@ class StubFile:
                     end = n
         out = self.data[slice(SymInt(self.pos), SymInt(end))]
         self.pos = S(self.pos + out.length())
-        return out
+        return _plain(out)
 
     def write(self, data):
         if self.closed:
@@ -128,7 +135,7 @@ class WaveRead:
                     end = n
         out = self.ent.data[slice(SymInt(self.pos), SymInt(end))]
         self.pos = S(self.pos + out.length())
-        return out
+        return _plain(out)
 
     def close(self):
         if not self.closed:
